@@ -17,6 +17,24 @@ pub enum Item {
 struct Shared {
 	next: AtomicUsize,
 	stop: AtomicUsize,
+	/// per worker: unix time at which it started its current item (0 = idle)
+	started: [AtomicUsize; 64],
+}
+
+/// An item that runs longer than this is killed and reported as a hang (typical items take milliseconds to a
+/// few seconds).
+pub static LIMIT_OVERRIDE: AtomicUsize = AtomicUsize::new(0);
+
+pub fn item_timeout_s() -> usize {
+	let o = LIMIT_OVERRIDE.load(Ordering::SeqCst);
+	if o != 0 {
+		return o
+	}
+	std::env::var("PDBMC_ITEM_TIMEOUT").ok().and_then(|s| s.parse().ok()).unwrap_or(300)
+}
+
+fn now() -> usize {
+	std::time::SystemTime::now().duration_since(std::time::UNIX_EPOCH).map(|d| d.as_secs() as usize).unwrap_or(0)
 }
 
 /// Run `f(i)` for every i in 0..n in `workers` forked processes. `f` returns (payload, stop):
@@ -29,7 +47,7 @@ where
 	if n == 0 {
 		return out
 	}
-	let workers = workers.max(1).min(n);
+	let workers = workers.max(1).min(n).min(64);
 	let shared: &Shared = unsafe {
 		let p = libc::mmap(
 			std::ptr::null_mut(),
@@ -44,6 +62,9 @@ where
 	};
 	shared.next.store(0, Ordering::SeqCst);
 	shared.stop.store(0, Ordering::SeqCst);
+	for s in shared.started.iter() {
+		s.store(0, Ordering::SeqCst);
+	}
 	let dir = crate::search::workdir("par");
 	std::fs::create_dir_all(&dir).unwrap();
 	let mut pids = vec![];
@@ -67,7 +88,9 @@ where
 				file.write_all(&[1u8]).unwrap();
 				file.write_all(&(i as u64).to_le_bytes()).unwrap();
 				file.flush().unwrap();
+				shared.started[w].store(now(), Ordering::SeqCst);
 				let (payload, stop) = f(i);
+				shared.started[w].store(0, Ordering::SeqCst);
 				file.write_all(&[2u8]).unwrap();
 				file.write_all(&(i as u64).to_le_bytes()).unwrap();
 				file.write_all(&(payload.len() as u64).to_le_bytes()).unwrap();
@@ -82,11 +105,38 @@ where
 			drop(file);
 			unsafe { libc::_exit(0) };
 		}
-		pids.push((pid, path));
+		pids.push((pid, path, w));
 	}
-	for (pid, path) in pids {
-		let mut status: i32 = 0;
-		unsafe { libc::waitpid(pid, &mut status, 0) };
+	// wait, killing workers whose current item exceeds the time limit
+	let limit = item_timeout_s();
+	let mut done: Vec<(i32, std::path::PathBuf, i32, bool)> = vec![];
+	let mut live = pids.clone();
+	while !live.is_empty() {
+		let mut still = vec![];
+		for (pid, path, w) in live {
+			let mut status: i32 = 0;
+			let r = unsafe { libc::waitpid(pid, &mut status, libc::WNOHANG) };
+			if r == pid {
+				done.push((pid, path, status, false));
+				continue
+			}
+			let st = shared.started[w].load(Ordering::SeqCst);
+			if st != 0 && now() > st + limit {
+				unsafe {
+					libc::kill(pid, libc::SIGKILL);
+					libc::waitpid(pid, &mut status, 0);
+				}
+				done.push((pid, path, status, true));
+				continue
+			}
+			still.push((pid, path, w));
+		}
+		live = still;
+		if !live.is_empty() {
+			std::thread::sleep(std::time::Duration::from_millis(20));
+		}
+	}
+	for (_pid, path, status, timed_out) in done {
 		let clean = libc::WIFEXITED(status) && libc::WEXITSTATUS(status) == 0;
 		let mut data = vec![];
 		if let Ok(mut f) = std::fs::File::open(&path) {
@@ -120,7 +170,9 @@ where
 			}
 		}
 		if !clean {
-			let why = if libc::WIFSIGNALED(status) {
+			let why = if timed_out {
+				format!("the execution did not finish within {} s (hang or livelock); worker killed", limit)
+			} else if libc::WIFSIGNALED(status) {
 				format!("worker killed by signal {}", libc::WTERMSIG(status))
 			} else {
 				format!("worker exited with status {}", libc::WEXITSTATUS(status))
